@@ -107,6 +107,13 @@ def signature(rec, failed):
     return ""
 
 
+def _rerun(case):
+    J, res = run_real(case)
+    return {"segs": case["segs"], "par": case["par"], "J": J, "res": res}
+
+
+REPLAY = ("Trace_Chainer", "Trace_Chainer.cfg", _rerun, ())
+
 def run(ctx: Ctx):
     quick = ctx.tier == "quick"
     rng = random.Random(ctx.seed * 7907 + 14)
